@@ -673,10 +673,75 @@ let vhmgrow_inst (c : case) : VhmGrowDefs.state inst =
     step = (fun st t _ -> stp st (Step (nat_of_int t)));
     pctag = simple_pctag (fun st -> st.th); nm }
 
+(* ---------------------------------------------------------------- nikolaev_queue (C04, unbounded) *)
+let nikq_inst (c : case) : NikqDefs.qstate inst =
+  let open NikqDefs in
+  let epn = int_of_string (cfg_get c "epn" "2") in
+  let cap = n_of_int (if epn = 1 then 1 else if epn = 2 then 2 else 4) in
+  let r0 = int_of_string (cfg_get c "retries" "0") in
+  (* the harness instantiates pop_retries as: epn=1 -> 0|2, epn=2 -> 0|1, else 0|2 *)
+  let r = n_of_int (match epn with 1 -> if r0 = 0 then 0 else 2 | 2 -> if r0 = 0 then 0 else 1 | _ -> if r0 = 0 then 0 else 2) in
+  let nm = { named = (fun _ -> "?");
+    opname = (function 0 -> "push" | 1 -> "pop" | 2 -> "tpop" | _ -> "?");
+    resname = (fun r -> match List.map int_of_n r with [1] -> "ok" | [1; _] -> string_of_n (List.nth r 1) | [0] -> "empty" | _ -> "?");
+    note = (fun code args -> match code, args with 120, [h] -> Some ("RETIRE h" ^ string_of_n h ^ "+0") | _ -> None) } in
+  { init = NikqDefs.qinit cap;
+    idle = (fun st t -> match st.oth (nat_of_int t) with OIdle -> true | _ -> false);
+    start = (fun st t (name, args) ->
+      let o = match name, args with "push", [v] -> NikbDefs.OPush (n_of_string v) | "tpop", _ -> NikbDefs.OPop true | _ -> NikbDefs.OPop false in
+      match NikqDefs.qstep cap r st (NikbDefs.Start (nat_of_int t, o)) with Some (s', _) -> Some s' | None -> None);
+    step = (fun st t _ -> NikqDefs.qstep cap r st (NikbDefs.Step (nat_of_int t)));
+    pctag = (fun st t -> let p = st.oth (nat_of_int t) in
+      let o = if Obj.is_int (Obj.repr p) then "i" ^ string_of_int (Obj.magic p : int) else string_of_int (Obj.tag (Obj.repr p)) in
+      let inner n = let q = (st.nd n).NikbDefs.th (nat_of_int t) in if Obj.is_int (Obj.repr q) then "i" ^ string_of_int (Obj.magic q : int) else string_of_int (Obj.tag (Obj.repr q)) in
+      (match p with
+       | PIn (_, n) | PRe (_, n) | QIn1 (n, _) | QIn2 (n, _) -> o ^ "." ^ inner n
+       | PSt (_, m, _) | PDel (_, m, _) -> o ^ "." ^ inner m
+       | _ -> o));
+    nm }
+
+(* generic_epoch_based reclaimer, every configuration. cfg keys: recl=EBR|NEBR|DEBRA|EBR0|GEBR_lazy|GEBR_n2|GEBR_aband|GEBR_thresh|GEBR_t0|EBR100,
+   or trait by trait (overrides the alias): sf=<n> scan=all|one|n<N> abandon=never|always|thresh<T> region=none|eager|lazy *)
+let gebr_config (c : case) : GebrDefs.config =
+  let open GebrDefs in
+  let mk f sc ab re = { scan_freq = nat_of_int f; scan_strat = sc; aband = ab; rext = re } in
+  let base = match cfg_get c "recl" "EBR" with
+    | "EBR" -> mk 1 ScanAll ANever RNone | "NEBR" -> mk 1 ScanAll ANever REager | "DEBRA" -> mk 1 (ScanN (nat_of_int 1)) ANever RNone
+    | "EBR0" -> mk 0 ScanAll ANever RNone | "GEBR_lazy" -> mk 1 ScanAll ANever RLazy | "GEBR_n2" -> mk 0 (ScanN (nat_of_int 2)) ANever RNone
+    | "GEBR_aband" -> mk 1 ScanAll AAlways RNone | "GEBR_thresh" -> mk 1 ScanAll (AThresh (nat_of_int 1)) REager
+    | "GEBR_t0" -> mk 1 ScanAll (AThresh (nat_of_int 0)) RNone | "EBR100" -> mk 100 ScanAll ANever RNone
+    | s -> prerr_endline ("unknown reclaimer alias " ^ s); exit 2 in
+  let num s i = nat_of_int (int_of_string (String.sub s i (String.length s - i))) in
+  let sf = match cfg_get c "sf" "" with "" -> base.scan_freq | s -> nat_of_int (int_of_string s) in
+  let sc = match cfg_get c "scan" "" with "" -> base.scan_strat | "all" -> ScanAll | "one" -> ScanN (nat_of_int 1) | s -> ScanN (num s 1) in
+  let ab = match cfg_get c "abandon" "" with "" -> base.aband | "never" -> ANever | "always" -> AAlways | s -> AThresh (num s 6) in
+  let re = match cfg_get c "region" "" with "" -> base.rext | "none" -> RNone | "eager" -> REager | "lazy" -> RLazy | s -> prerr_endline ("unknown region extension " ^ s); exit 2 in
+  { scan_freq = sf; scan_strat = sc; aband = ab; rext = re }
+let gebr_inst (c : case) : GebrDefs.state inst =
+  let open GebrDefs in
+  let ncells = n_of_int (int_of_string (cfg_get c "cells" "2")) in
+  let nslots = nat_of_int (int_of_string (cfg_get c "slots" "3")) in
+  let cfg = gebr_config c in
+  let nm = {
+    named = (fun i -> if i = 0 then "tbl_head" else if i = 1 then "global_epoch" else if i < 5 then "orphan" ^ string_of_int (i - 2) else "cell" ^ string_of_int (i - 10));
+    opname = (function 0 -> "repl" | 1 -> "clear" | 2 -> "read" | 3 -> "hold" | 4 -> "drop" | 5 -> "deref" | 6 -> "enter" | 7 -> "leave" | _ -> "?");
+    resname = (fun r -> match List.map int_of_n r with [0] -> "ok" | [1] -> "lost" | [2] -> "null" | [3; _] -> string_of_n (List.nth r 1) | _ -> "?");
+    note = no_note } in
+  { init = GebrDefs.init ncells;
+    idle = (fun st t -> match st.th (nat_of_int t) with Idle -> true | _ -> false);
+    start = (fun st t (name, args) ->
+      let n i = n_of_string (List.nth args i) and s i = nat_of_int (int_of_string (List.nth args i)) in
+      let o = match name with
+        | "repl" -> ORepl (n 0) | "clear" -> OClear (n 0) | "read" -> ORead (n 0) | "hold" -> OHold (n 0, s 1)
+        | "drop" -> ODrop (s 0) | "deref" -> ODeref (s 0) | "enter" -> OEnter | "leave" -> OLeave | _ -> OExit in
+      match GebrDefs.step cfg nslots st (Start (nat_of_int t, o)) with Some (s', _) -> Some s' | None -> None);
+    step = (fun st t _ -> GebrDefs.step cfg nslots st (Step (nat_of_int t)));
+    pctag = (fun st t -> let p = st.th (nat_of_int t) in if Obj.is_int (Obj.repr p) then "i" ^ string_of_int (Obj.magic p : int) else string_of_int (Obj.tag (Obj.repr p))); nm }
+
 let () =
   let model = Sys.argv.(1) and cmd = Sys.argv.(2) and path = Sys.argv.(3) in
   let c = parse_case path in
-  let c = if model = "ebr" || model = "qsbr" || model = "lfrc" then ebr_with_exit c else c in
+  let c = if model = "ebr" || model = "qsbr" || model = "lfrc" || model = "gebr" then ebr_with_exit c else c in
   let go inst =
     match cmd with
     | "run" ->
@@ -717,4 +782,6 @@ let () =
   | "he" -> go (he_inst c)
   | "hmm" -> go (hmm_inst c)
   | "vhmgrow" -> go (vhmgrow_inst c)
+  | "nikq" -> go (nikq_inst c)
+  | "gebr" -> go (gebr_inst c)
   | _ -> prerr_endline ("unknown model " ^ model); exit 2
